@@ -209,7 +209,42 @@ int wl_pick(int n) { return wl_int(0, n - 1); }
 int wl_pct(int pct) { return wl_int(0, 99) >= 100 - pct; } /* lo (=0) is the "no" answer: shrinks towards no */
 int sim_tier_thorough(void) { return tier_thorough; }
 
-uint64_t fault_draw(int kind, uint32_t inv_prob, uint64_t maxv) {
+/* ---- the runtime's own stack ----
+ * Generate mode draws from PRNGs where replay mode looks decisions up, so the two leave different garbage in
+ * the dead frames below the caller. Code with a genuine defect that reads such a dead frame (a list node on a
+ * frame that has returned) would then behave differently when its replay file is run. The mode-dependent
+ * parts of the runtime therefore run on a stack of the kernel thread's own; the code under test only ever
+ * sees the fixed frames of the hook itself below its stack pointer. */
+static __thread char* rt_stack_top;
+static __thread int on_rt_stack;
+static void rt_stack_install(void) {
+  size_t sz = 1 << 17;
+  char* st = mmap(0, sz, PROT_READ | PROT_WRITE, MAP_PRIVATE | MAP_ANONYMOUS, -1, 0);
+  if (st != MAP_FAILED) rt_stack_top = st + sz - 64;
+}
+static __attribute__((noinline)) uint64_t rt_call(void* fn, uint64_t a, uint64_t b, uint64_t c) {
+  if (!rt_stack_top || on_rt_stack) return ((uint64_t(*)(uint64_t, uint64_t, uint64_t))fn)(a, b, c);
+  on_rt_stack = 1;
+  register uint64_t ret __asm__("rax");
+  register uint64_t ra __asm__("rdi") = a;
+  register uint64_t rb __asm__("rsi") = b;
+  register uint64_t rc __asm__("rdx") = c;
+  __asm__ volatile(
+      "movq %%rsp, %%r12\n\t"
+      "movq %[top], %%rsp\n\t"
+      "callq *%[fn]\n\t"
+      "movq %%r12, %%rsp\n\t"
+      : "=r"(ret), "+r"(ra), "+r"(rb), "+r"(rc)
+      : [top] "r"(rt_stack_top), [fn] "r"(fn)
+      : "r12", "rcx", "r8", "r9", "r10", "r11", "memory", "cc", "xmm0", "xmm1", "xmm2", "xmm3", "xmm4", "xmm5", "xmm6", "xmm7", "xmm8", "xmm9",
+        "xmm10", "xmm11", "xmm12", "xmm13", "xmm14", "xmm15");
+  on_rt_stack = 0;
+  return ret;
+}
+
+static uint64_t fault_draw_inner(uint64_t kind_, uint64_t inv_prob_, uint64_t maxv) {
+  const int kind = (int)kind_;
+  const uint32_t inv_prob = (uint32_t)inv_prob_;
   if (!(fault_mask & FBIT(kind))) return 0;
   uint64_t idx = fault_opp[kind]++;
   uint64_t v = 0;
@@ -238,6 +273,7 @@ uint64_t fault_draw(int kind, uint32_t inv_prob, uint64_t maxv) {
   }
   return v;
 }
+uint64_t fault_draw(int kind, uint32_t inv_prob, uint64_t maxv) { return rt_call((void*)fault_draw_inner, (uint64_t)kind, inv_prob, maxv); }
 
 /* ------------------------------------------------------------------ */
 /* allocator: bump arena + shadow (1 byte per 8), redzones, poison     */
@@ -682,7 +718,9 @@ static void check_idle_stuck(void) {
     finish(11, "violation", "STUCK-idle", "every kernel thread idle and no harness operation completed within the quiet budget");
 }
 /* the calling thread has set its state to a blocked one; returns when it may continue */
-void block_me(void) {
+static void block_me_inner(void);
+void block_me(void) { rt_call((void*)block_me_inner, 0, 0, 0); }
+static void block_me_inner(void) {
   tso_flush_me();
   T[me].tstep++;
   for (;;) {
@@ -742,7 +780,7 @@ void sim_sched_point(int kind) {
   if (!sim_active || me < 0) return;
   tso_commit_pending();
   const int saved_errno = errno; /* the runtime's own system calls must not leak into the code under test */
-  sched_point_inner(kind);
+  rt_call((void*)sched_point_inner, (uint64_t)kind, 0, 0);
   errno = saved_errno;
 }
 static void sched_point_inner(int kind) {
@@ -850,7 +888,7 @@ void fiber_verif_spin_hint(void) {
   if (!sim_active || me < 0) return;
   tso_commit_pending();
   const int saved_errno = errno;
-  spin_hint_inner();
+  rt_call((void*)spin_hint_inner, 0, 0, 0);
   errno = saved_errno;
 }
 static void spin_hint_inner(void) {
@@ -1660,6 +1698,7 @@ static void crash_handler(int sig, siginfo_t* si, void* uc) {
   finish(13, "violation", "CRASH-signal", d);
 }
 static void install_altstack(void) {
+  rt_stack_install();
   size_t sz = 1 << 16;
   void* st = mmap(0, sz, PROT_READ | PROT_WRITE, MAP_PRIVATE | MAP_ANONYMOUS, -1, 0);
   stack_t ss = {.ss_sp = st, .ss_size = sz};
